@@ -14,6 +14,11 @@ use std::{
 #[cfg_attr(docsrs, doc(cfg(feature = "serde1")))]
 pub mod serde;
 
+/// The longest timeout a request deadline timer is armed with. The timer queue panics when asked
+/// for a timeout beyond its range (about 2.2 years), so deadlines further away than this are
+/// enforced at this distance.
+pub const MAX_TIMER_DURATION: Duration = Duration::from_secs(365 * 24 * 60 * 60);
+
 /// Extension trait for [Instants](Instant) in the future, i.e. deadlines.
 pub trait TimeUntil {
     /// How much time from now until this time is reached.
